@@ -125,7 +125,7 @@ pub fn run_enc(c: &EncCase) -> EncRun {
             eof_ok = Some(r.is_ok());
             ops.push(V::T("eof", vec![V::b(r.is_ok()), V::h(&wire[before..])]));
         }
-        let rd = reader::read_response(&wire, c.req.head(), true);
+        let rd = reader::read_response(&wire, c.own().head(), true);
         EncRun { v: V::T("enc", vec![V::L(ops), v_read(&rd)]), wire: wire.to_vec(), eof_ok }
     })
 }
@@ -163,7 +163,8 @@ impl Expect<'_> {
     /// the client must not see a complete message: the body is short of its declared size, or it
     /// did not end normally and its framing needs an explicit end
     pub fn aborted(&self) -> bool {
-        self.short() || (!self.ended && !matches!(self.size, SizeSpec::Sized(_)))
+        // (a response without a body is complete with its head, whatever its handler's body does)
+        !self.no_body() && (self.short() || (!self.ended && !matches!(self.size, SizeSpec::Sized(_))))
     }
     pub fn no_body(&self) -> bool {
         self.req.head() || self.resp.bodiless_status()
@@ -301,7 +302,9 @@ impl Expect<'_> {
 
 pub fn oracle_enc(c: &EncCase, run: &EncRun) -> Result<(), String> {
     let chunks: Vec<Vec<u8>> = c.chunks.iter().map(|h| unhex(h)).collect();
-    let e = Expect { ka: c.ka, req: &c.req, resp: &c.resp, size: &c.size, chunks: &chunks, ended: c.eof };
+    // the codec encodes with the context of the request decoded last (the dispatcher sees to it
+    // that this is the request being answered)
+    let e = Expect { ka: c.ka, req: c.own(), resp: &c.resp, size: &c.size, chunks: &chunks, ended: c.eof };
     // short body at eof must be an error of encode (so that the dispatcher aborts)
     if c.eof && !e.no_body() && e.short() && run.eof_ok != Some(false) {
         return Err("Chunk(None) accepted although fewer bytes than content-length were written".into());
@@ -310,15 +313,10 @@ pub fn oracle_enc(c: &EncCase, run: &EncRun) -> Result<(), String> {
 }
 
 pub fn enc_known_class(c: &EncCase) -> String {
-    if let Some(l) = &c.later {
-        if l.ctx(c.ka) != c.req.ctx(c.ka) {
-            return "F12-pipelined-context".into();
-        }
-    }
     if c.req.stream() && c.size == SizeSpec::Stream && !c.resp.no_chunking && !c.resp.bodiless_status() && !c.req.head() {
         return "F18b-stream-request-chunked-header".into();
     }
-    if c.resp.status == 304 && !c.size.eofish() && !c.req.head() {
+    if c.resp.status == 304 && !c.size.eofish() && !c.own().head() {
         return "F2-304-with-body".into();
     }
     String::new()
